@@ -5,6 +5,7 @@ package lang
 
 import (
 	"fmt"
+	"math/big"
 
 	"github.com/zclconf/go-cty/cty"
 )
@@ -66,8 +67,12 @@ func (s IndexStep) String() string {
 	switch s.Key.Type() {
 	case cty.Number:
 		f := s.Key.AsBigFloat()
-		idx, _ := f.Int64()
-		return fmt.Sprintf("[%d]", idx)
+		if idx, acc := f.Int64(); acc == big.Exact {
+			return fmt.Sprintf("[%d]", idx)
+		}
+		// fractional keys and keys beyond the int64 range are kept
+		// apart from the whole numbers they would be cut to
+		return fmt.Sprintf("[%s]", f.Text('f', -1))
 	case cty.String:
 		return fmt.Sprintf("[%q]", s.Key.AsString())
 	}
